@@ -1,7 +1,7 @@
 (** C02 - captured versions (clones and persisted roots) never change afterwards.
     Statements only; proofs are in Hist.v / Persist.v. *)
 From Coq Require Import List NArith ZArith Bool.
-From Mast Require Import Prim Key Tree KeyOrder Codec Store Diff World Erase Build Spec Canon Level Inv Hist Persist Reload WorldInv VersionsHist.
+From Mast Require Import Prim Key Tree KeyOrder Codec Store Diff World Erase Build Spec Canon Level Inv Hist Persist Reload WorldInv VersionsHist Cache.
 Import ListNotations.
 
 (** the operation a step is applied to *)
@@ -85,9 +85,18 @@ Proof.
   split; [repeat constructor; discriminate|]. split; [repeat constructor; discriminate|]. vm_compute. split; reflexivity.
 Qed.
 
+(** "... that share the store and the node cache": a cache that is coherent with the store (every cached
+    node is the node stored under that name) does not change what loading a captured root yields - so
+    the two theorems above hold verbatim for loads through any coherent cache, however it is shared,
+    filled or evicted (Cache.v; that the real cache is coherent is the correspondence check's business) *)
+Theorem C02_cache_transparent : forall f c st kind bf l rt,
+  good_root f st kind bf l rt -> coherent f kind c st -> load_mast_c c st kind rt = load_mast st kind rt.
+Proof. exact load_mast_c_transparent. Qed.
+
 Print Assumptions C02_frame.
 Print Assumptions C02_captured_stable.
 Print Assumptions C02_store_monotone.
 Print Assumptions C02_persist_keeps_contents.
 Print Assumptions C02_captured_tree_never_changes.
 Print Assumptions C02_captured_root_never_changes.
+Print Assumptions C02_cache_transparent.
